@@ -218,7 +218,6 @@ type mstmt struct {
 	pending   map[int][]byte // long data per parameter since the last execution/reset
 	hasLong   map[int]bool
 	types     []byte // type block of the last well-formed execute carrying types (nil: unknown)
-	tainted   bool   // a failed bind after a valid first parameter happened since the last successful execute/reset
 	failedAgo bool   // some failed execution since the last successful one (for the non-trivial rule)
 }
 
@@ -403,13 +402,6 @@ func checkCase(c c16Case) (o pbt.Outcome) {
 
 	var live, dead []*mstmt
 	prepared := 0
-	var known, knownWhat string
-	classify := func(id, what string) {
-		if known == "" {
-			known, knownWhat = id, what
-		}
-		label("known_" + id)
-	}
 	pick := func(list []*mstmt, s int) *mstmt {
 		if len(list) == 0 {
 			return nil
@@ -472,13 +464,6 @@ func checkCase(c c16Case) (o pbt.Outcome) {
 			}
 			if gotErr {
 				// Gaea rejected long data for a live statement and a valid parameter index
-				if st.tainted {
-					// the only way a live statement and a valid index are refused is a slot that already holds a
-					// non-long value; after the first failed bind later failed executes (malformed, or well-formed
-					// but shifted) can leave one in any slot
-					classify("C16-F1", fmt.Sprintf("op %d: send_long_data for parameter %d of statement %s is rejected because a value bound by an earlier failed execute is still there", oi, pi, st.marker))
-					continue
-				}
 				o.Violation = fmt.Sprintf("op %d: send_long_data(stmt %s, param %d) on a live statement was answered with an error", oi, st.marker, pi)
 				return
 			}
@@ -544,7 +529,7 @@ func checkCase(c c16Case) (o pbt.Outcome) {
 				o.Violation = fmt.Sprintf("op %d: COM_STMT_RESET on live statement %s failed: %v", oi, st.marker, r.Err)
 				return
 			}
-			st.pending, st.hasLong, st.tainted = map[int][]byte{}, map[int]bool{}, false
+			st.pending, st.hasLong = map[int][]byte{}, map[int]bool{}
 			label("reset")
 
 		case "close":
@@ -587,15 +572,12 @@ func checkCase(c c16Case) (o pbt.Outcome) {
 					o.Violation = fmt.Sprintf("op %d: malformed execute (%s) closed the connection but %q reached the backend", oi, op.Bad, evs[0].SQL)
 					return
 				}
-				o.Known, o.KnownWhat = known, knownWhat
 				return // the session is gone; nothing more to observe
 			}
 			if r.Err == nil {
 				label("malformed_execute_accepted")
-				if !st.tainted {
-					label("malformed_execute_accepted_untainted_" + op.Bad)
-				}
-				st.types, st.tainted, st.failedAgo = nil, false, false
+				label("malformed_execute_accepted_" + op.Bad)
+				st.types, st.failedAgo = nil, false
 				continue
 			}
 			if len(evs) > 0 {
@@ -606,7 +588,7 @@ func checkCase(c c16Case) (o pbt.Outcome) {
 			st.types = nil
 			st.failedAgo = true
 			if taints {
-				st.tainted = true
+				label("malformed_after_valid_first_parameter")
 			}
 
 		case "exec":
@@ -635,17 +617,11 @@ func checkCase(c c16Case) (o pbt.Outcome) {
 			evs := e.NewQueries(st.marker)
 			atomic.StoreInt32(&failNext, 0)
 			if err != nil {
-				if st.tainted && len(evs) == 0 {
-					// the shifted values of C16-F1 can run a temporal decoder over too few bytes: the session dies
-					classify("C16-F1", fmt.Sprintf("op %d: well-formed execute of %s closed the connection (%v) after a failed execute left parameter 0 bound", oi, st.marker, err))
-					o.Known, o.KnownWhat = known, knownWhat
-					return
-				}
 				o.Skip = fmt.Sprintf("connection lost on a well-formed execute (not a violation by itself): %v", err)
 				return
 			}
 			hadLong := len(st.hasLong) > 0
-			wasTainted, afterFailure := st.tainted, st.failedAgo
+			afterFailure := st.failedAgo
 			// whatever the outcome, the execution consumed the long data (MySQL resets it too)
 			st.pending, st.hasLong = map[int][]byte{}, map[int]bool{}
 			if len(evs) > 1 {
@@ -659,10 +635,12 @@ func checkCase(c c16Case) (o pbt.Outcome) {
 				}
 				// rejected by the proxy: no statement ran; never a violation by itself
 				label("wellformed_execute_rejected")
-				st.types = nil
-				if wasTainted {
-					classify("C16-F1", fmt.Sprintf("op %d: well-formed execute of %s rejected (%v) after a failed execute left parameter 0 bound", oi, st.marker, r.Err))
+				msg := r.Err.Message
+				if len(msg) > 70 {
+					msg = msg[:70]
 				}
+				label(fmt.Sprintf("wellformed_execute_rejected: %d %s", r.Err.Code, msg))
+				st.types = nil
 				st.failedAgo = true
 				continue
 			}
@@ -683,20 +661,15 @@ func checkCase(c c16Case) (o pbt.Outcome) {
 			res := sqllex.Match(st.template, ev.SQL, m, want, nil)
 			if !res.OK {
 				detail := fmt.Sprintf("op %d: execute of %s with %s: backend received %q: %s", oi, st.marker, describe(want), ev.SQL, res.Detail)
-				if wasTainted && staleShows(st, ev.SQL, m, want) {
-					classify("C16-F1", detail)
-				} else {
-					o.Violation = detail
-					return
-				}
+				o.Violation = detail
+				return
 			}
 			// the statement text reached the backend, so the packet was parsed completely: the server
 			// remembers this type block whether or not the backend then failed (as libmysqlclient assumes)
 			st.types = types
-			st.tainted, st.failedAgo = false, r.Err != nil
+			st.failedAgo = r.Err != nil
 		}
 	}
-	o.Known, o.KnownWhat = known, knownWhat
 	return
 }
 
@@ -706,25 +679,6 @@ func describe(ps []sqllex.Param) string {
 		parts = append(parts, p.Describe())
 	}
 	return "[" + strings.Join(parts, "; ") + "]"
-}
-
-// staleShows is the classifier of C16-F1. It is only consulted for a statement
-// that had a failed bind since its last successful execute or reset. From then
-// on the slots of Stmt.args hold leftovers that the next executes skip: the
-// first value of the failed packet, first values of later failed packets read
-// for the next free slot, long data sent in between (kept because the failed
-// execute did not reset), and this execution's own values shifted accordingly.
-// Predicting the exact mixture would mean re-implementing bindStmtArgs, so the
-// classifier demands what the root cause cannot break: the statement is the
-// template with exactly one literal per placeholder (only values differ).
-func staleShows(st *mstmt, got string, m sqllex.Mode, want []sqllex.Param) bool {
-	alt := func(k int, _ sqllex.Param, gt []sqllex.Token, j int) int {
-		if l, ok := sqllex.TakeLiteral(gt, j); ok {
-			return l.N
-		}
-		return 0
-	}
-	return sqllex.Match(st.template, got, m, want, alt).OK
 }
 
 // fixtureFailures counts cases that could not be evaluated because the proxy,
